@@ -19,6 +19,36 @@ CHECKS = {
  "C15": ("bounded-exhaustive enumeration of accepted/rejected inputs with all six line-break forms; structural range oracle, re-parse oracle, direct line/column count",
          "Every node of every accepted tree in the bound is checked for nesting/order/re-parse; every rejection with a diagnostic is checked against a direct line/column count; helpers are checked for every text x offset in the bound.",
          "Trusted: direct line/column counter. Errors without diagnostic (end-of-input assertion) are only required to be errors.", "C15"),
+ "C03": ("bounded-exhaustive enumeration of operator x value-kind products, builtin x argument-list products and parsed token sequences on the real evaluator; instrumented step budget",
+         "Every formula in the enumerated products is evaluated by the real Resolve with a data map holding every supported and odd Go kind; each evaluation is judged for no panic, value xor error, termination.",
+         "Trusted: value alphabet in checks/zoo.go. Host functions that panic themselves and pad lengths between 1e6 and absurd are outside the statement.", "C03"),
+ "C04": ("bounded-exhaustive operand-grid exploration against an exact big-integer decimal reference model",
+         "All ordered pairs of an 880-operand grid under + - * / %, all 3-operation chains over a sub-grid and all listed float64/int/int64 data values are evaluated on the real evaluator and compared with exact decimal arithmetic rounded half-even to 34 digits, including the float64 handed back.",
+         "Trusted: internal/ref/dec.go on math/big, strconv for nearest float64. Division by zero not judged.", "C04"),
+ "C05": ("exhaustive pair exploration of a value grid; relational laws between the eight operator results on each pair, exact reference order",
+         "Every ordered pair of a 260-value grid (number spellings, computed numbers, data values, strings, booleans, nulls) is evaluated under all eight operators and the results are judged against trichotomy, negation, kind-strictness and the exact order.",
+         "Trusted: exact decimal comparison, Go byte-wise string order. Mixed-kind < and == only under the negation laws.", "C05"),
+ "C06": ("exhaustive exploration of condition x branch products for the six selection operators and all depth-2 nestings against a truthiness reference; branch evaluation observed by recording functions and locals",
+         "Every (condition, branch) combination and every depth-2 nesting is evaluated on the real evaluator; the result must be the operand the reference semantics selects, unchanged, and only the selected branch of ?: may run.",
+         "Trusted: truthiness table from the statement. Operand side effects of && || ?? not judged.", "C06"),
+ "C12": ("bounded-exhaustive enumeration of literal spellings against a reference number automaton and exact decimal values",
+         "Every string up to n characters over the literal alphabet and every long literal in the family is scanned, parsed and evaluated in six syntactic contexts; accept/reject, tree and exact value must match the reference.",
+         "Trusted: reference automaton and exact decimals. Exponents beyond 9 significant digits not enumerated.", "C12"),
+ "C13": ("bounded-exhaustive enumeration of texts x quote styles x escape-form combinations against a reference escaper",
+         "Every text up to n atoms is escaped in every combination of equivalent forms, evaluated on the real code and compared byte for byte; every open literal must be rejected.",
+         "Trusted: reference escaper.", "C13"),
+ "C16": ("bounded-exhaustive path exploration over data configurations against a direct Go walk of the data",
+         "Every dotted path up to depth d over a key universe, with . or !. at every position, is evaluated against four data configurations and compared with a type-switch walk of the same data (value, typeof, null-equality, error).",
+         "Trusted: the walk in checks/c16.go. Member access on non-map non-struct values, pointers to structs and unexported fields: only no-panic.", "C16"),
+ "C17": ("bounded-exhaustive enumeration of strings x strings x positions for every string/list builtin against naive reference loops, plus the algebraic laws evaluated inside the language",
+         "All strings up to 4 symbols over a 5-symbol alphabet (incl. a multi-byte character), all needles, all positions from -2 to len+2 are run through every builtin on the real evaluator and compared with naive references; regexp against RE2 directly.",
+         "Trusted: naive references, Go regexp. Byte semantics for len.", "C17"),
+ "C18": ("grid-exhaustive exploration of decimal arguments against exact rational arithmetic and a self-checking 320-bit reference for the transcendental functions",
+         "Every argument of the grid is run through all numeric builtins on the real evaluator; integer-valued functions are compared exactly, sqrt/exp/ln/log to 5e-15 relative, max/min over all short lists, bit operators over all pairs of 24 integers.",
+         "Trusted: math/big, internal/ref/num.go (self-checked every run).", "C18"),
+ "C19": ("exhaustive (y,m,d) / shift / time-of-day grids per time zone (one worker process per TZ) against independent days-from-civil arithmetic",
+         "Every triple of the grid is evaluated through date/addDate and all extractors inside the language in six zones; civil fields, weekday and Unix milliseconds are compared with an independent calendar computation; useTimezone/timeFormat/now/toDay likewise.",
+         "Trusted: calendar arithmetic in checks/c19.go, Go zone tables for offsets only. Non-existent local midnights skipped and counted.", "C19"),
 }
 PENDING_REASON = "check not built yet in this phase (planned: bounded-exhaustive enumeration per DESIGN.md); will be claimed once its check runs green"
 
